@@ -547,6 +547,24 @@ class Effects:
                                     gen[bb] |= self.nested((c[1], c[2]))
                                 elif c[0] == "param" and c[2]:
                                     genp[bb].add(c[1])
+                elif name.endswith("::for_each") and "Iterator" in name and t["args"] and t["call"].get("closures"):
+                    # `place.iter_mut().for_each(|x| *x = v)`: every element is assigned when the closure must-writes its argument
+                    cl = t["call"]["closures"][0]
+                    cs = self.sum.get(cl)
+                    o0 = t["args"][0]
+                    pl0 = (o0.get("m") or o0.get("c")) if isinstance(o0, dict) else None
+                    if cs is not None and cs["MWP"] and pl0 is not None and not pl0["p"]:
+                        ds = fn.defs().get(pl0["l"], [])
+                        if len(ds) == 1 and ds[0][1] == "t":
+                            t2 = fn.blocks[ds[0][0]]["t"]
+                            if "call" in t2 and callee_name(t2["call"]).endswith("::iter_mut") and t2["args"]:
+                                ac = self._arg_classes(fn, t2["args"][0])
+                                if ac and len(ac[0]) == 1:
+                                    c = ac[0][0]
+                                    if c[0] == "loc" and c[3]:
+                                        gen[bb] |= self.nested((c[1], c[2]))
+                                    elif c[0] == "param" and c[2]:
+                                        genp[bb].add(c[1])
                 elif any(name.endswith(x) for x in ("::fill", "mem::replace", "ptr::write")):
                     if t["args"]:
                         ac = self._arg_classes(fn, t["args"][0])
